@@ -526,8 +526,8 @@ func (g *Gen) unop(fr *Frame, st *State, x *ssa.UnOp, r string) Val {
 
 // arrayLenFact: a value of type [N]byte has exactly N bytes.
 func (g *Gen) arrayLenFact(v Val) {
-	if v.S != "Str" || v.Ty == nil || g.dry > 0 || strings.Contains(v.T, "!b") {
-		return
+	if v.S != "Str" || v.Ty == nil || g.dry > 0 || strings.Contains(v.T, "!b") || strings.Contains(v.T, "a$") {
+		return // (terms under a quantifier binder or inside a spec-function body cannot be asserted about globally)
 	}
 	if a, ok := types.Unalias(v.Ty).Underlying().(*types.Array); ok {
 		g.vc.assume("", fmt.Sprintf("(= (slen %s) %d)", v.T, a.Len()))
@@ -1279,6 +1279,9 @@ func (g *Gen) returnClauses(fr *Frame, st *State, x *ssa.Return, vs []Val, r str
 	}
 	for _, cl := range fr.fc.Returns {
 		v, err := g.evalBool(cl.Expr, env)
+		if err != nil && cl.InScope && (strings.Contains(err.Error(), "unknown identifier") || strings.Contains(err.Error(), "unknown location")) {
+			continue
+		}
 		if err != nil {
 			// variables that are out of scope at this return: sub-formulas mentioning them are replaced by
 			// false in positive and true in negative position, which only strengthens the obligation
